@@ -734,6 +734,11 @@ qtreetbl_obj_t qtreetbl_find_nearest(qtreetbl_t *tbl, const void *name,
     }
 
     qtreetbl_lock(tbl);
+    if (tbl->root != NULL) {
+        // the climb below stops at the root, so its parent link must not
+        // carry a stale pointer from an earlier walk or search.
+        tbl->root->next = NULL;
+    }
     qtreetbl_obj_t *obj, *lastobj;
     for (obj = lastobj = tbl->root; obj != NULL;) {
         int cmp = tbl->compare(name, namesize, obj->name, obj->namesize);
